@@ -46,7 +46,7 @@ PROPS = {
         'assumptions': [],
     },
     'C11': {
-        'modules': ['SE.Props.C11'],
+        'modules': ['SE.Props.C11', 'SE.Gen.TieMapper'],
         'streams': [{'component': 'mapper_c11', 'note_kinds': {'tmpl'}}],
         'level': 'proof',
         'trusted_base': ["fmt.Sprintf is modelled for %s and %% only; results of templates that reach other % sequences are not compared (model answers `?`)", "regexp.Expand template syntax modelled from the Go source", "Go regexp semantics via the rx oracle"],
@@ -60,21 +60,21 @@ PROPS = {
         'assumptions': [],
     },
     'C14': {
-        'modules': ['SE.Props.C14'],
+        'modules': ['SE.Props.C14', 'SE.Gen.TieMapper'],
         'streams': [{'component': 'mapper_c14', 'note_kinds': {'fresh'}}],
         'level': 'proof',
         'trusted_base': ["sync.RWMutex semantics (GetMapping and the swap are atomic steps)", "yaml.v2"],
         'assumptions': [],
     },
     'C09': {
-        'modules': ['SE.Props.C09'],
+        'modules': ['SE.Props.C09', 'SE.Gen.TieLine'],
         'streams': [{'component': 'parse', 'info_comparable': True}],
         'level': 'proof',
         'trusted_base': ["strconv.ParseFloat results are shipped by the harness (oracle `pf`)"],
         'assumptions': [],
     },
     'C10': {
-        'modules': ['SE.Props.C10'],
+        'modules': ['SE.Props.C10', 'SE.Gen.TieLine'],
         'streams': [{'component': 'parse', 'seed_off': 1000, 'info_comparable': True}],
         'level': 'proof',
         'trusted_base': ["strconv.ParseFloat results are shipped by the harness (oracle `pf`)"],
@@ -102,32 +102,32 @@ PROPS = {
         'assumptions': [_TV_NOTE],
     },
     'C05': {
-        'modules': [],
+        'modules': ['SE.Props.C05'],
         'streams': [{'component': 'pipe_c05', 'note_kinds': set()}],
-        'level': 'translation_validation',
+        'level': 'proof',
         'trusted_base': ["client_golang v1.22.0 (vector constructors, child creation and its panics, counter/gauge/histogram/summary updates, Delete, Gather's family checks) and perks' Query fast path are modelled by hand from their sources (SE/Model/Registry.lean)", 'FNV-64 label-hash collisions assumed away', 'IEEE float64 = Lean Float in the driver; strconv.ParseFloat and regexp results shipped by the harness', 'yaml.v2 decodes the rendered configuration to the intended fields'],
-        'assumptions': [_TV_NOTE],
+        'assumptions': [],
     },
     'C06': {
-        'modules': [],
+        'modules': ['SE.Props.C06'],
         'streams': [{'component': 'pipe_c06', 'note_kinds': {'counter'}}],
-        'level': 'translation_validation',
+        'level': 'proof',
         'trusted_base': ["client_golang v1.22.0 (vector constructors, child creation and its panics, counter/gauge/histogram/summary updates, Delete, Gather's family checks) and perks' Query fast path are modelled by hand from their sources (SE/Model/Registry.lean)", 'FNV-64 label-hash collisions assumed away', 'IEEE float64 = Lean Float in the driver; strconv.ParseFloat and regexp results shipped by the harness', 'yaml.v2 decodes the rendered configuration to the intended fields'],
-        'assumptions': [_TV_NOTE],
+        'assumptions': [],
     },
     'C07': {
-        'modules': [],
+        'modules': ['SE.Props.C07'],
         'streams': [{'component': 'pipe_c07', 'note_kinds': set()}],
-        'level': 'translation_validation',
+        'level': 'proof',
         'trusted_base': ["client_golang v1.22.0 (vector constructors, child creation and its panics, counter/gauge/histogram/summary updates, Delete, Gather's family checks) and perks' Query fast path are modelled by hand from their sources (SE/Model/Registry.lean)", 'FNV-64 label-hash collisions assumed away', 'IEEE float64 = Lean Float in the driver; strconv.ParseFloat and regexp results shipped by the harness', 'yaml.v2 decodes the rendered configuration to the intended fields'],
-        'assumptions': [_TV_NOTE],
+        'assumptions': [],
     },
     'C08': {
-        'modules': [],
+        'modules': ['SE.Props.C08', 'SE.Gen.TieRegistry'],
         'streams': [{'component': 'pipe_c08', 'note_kinds': {'gather'}}],
-        'level': 'translation_validation',
+        'level': 'proof',
         'trusted_base': ["client_golang v1.22.0 (vector constructors, child creation and its panics, counter/gauge/histogram/summary updates, Delete, Gather's family checks) and perks' Query fast path are modelled by hand from their sources (SE/Model/Registry.lean)", 'FNV-64 label-hash collisions assumed away', 'IEEE float64 = Lean Float in the driver; strconv.ParseFloat and regexp results shipped by the harness', 'yaml.v2 decodes the rendered configuration to the intended fields'],
-        'assumptions': [_TV_NOTE],
+        'assumptions': [],
     },
     'C19': {
         'modules': [],
@@ -144,11 +144,11 @@ PROPS = {
         'assumptions': [],
     },
     'C17': {
-        'modules': [],
+        'modules': ['SE.Props.C17', 'SE.Gen.TieRelay'],
         'streams': [{'component': 'relay'}],
-        'level': 'translation_validation',
+        'level': 'proof',
         'trusted_base': ["Go `select` picks any ready case; channel/goroutine semantics as encoded in the step relation of SE/Model/Relay.lean", "loopback UDP delivers datagrams intact and in order", "the deterministic stream lets the sender take each line before the next operation (hook VerifPending); other schedules are covered only by the model's theorems"],
-        'assumptions': [_TV_NOTE],
+        'assumptions': [],
     },
     'C18': {
         'modules': [],
@@ -156,5 +156,12 @@ PROPS = {
         'level': 'translation_validation',
         'trusted_base': ["bufio.Reader.ReadLine (4096-byte buffer) modelled from the Go standard library source at the level of buffer + chunks", "the kernel delivers loopback datagrams intact and TCP bytes in order; real TCP segmentation is whatever the kernel does with the generated writes", "goroutine scheduling of reader/processor and concurrent TCP connections are not in the model (partial)"],
         'assumptions': [_TV_NOTE],
+    },
+    'C20': {
+        'modules': ['SE.Props.C20'],
+        'streams': [{'component': 'race-stress'}],
+        'level': 'proof',
+        'trusted_base': ["the extractor /verif/extract (go/ast): lock regions are recognised as top-level recv.mu.Lock()/RLock() ... (defer) Unlock(); anything else is reported in irregularLocking and breaks the obligation", "hand-written tables in SE/Model/Sync.lean: which goroutine roles run which method (rolesOf) and which extracted locations are shared mutable state, incl. three facts about third-party code (groupcache lru.Cache.Get writes its list; prometheus collectors, channels and slog loggers synchronise internally)", "Go memory model: accesses ordered by a common mutex (writer exclusive) do not race", "the race detector runs are sampling (search support), not part of the proof"],
+        'assumptions': [],
     },
 }
